@@ -259,7 +259,7 @@ def parse_shown_patch(text):
 class Engine:
     name = "cli"
     spec = "cli"
-    runs = {"quick": 3000, "thorough": 600000}
+    runs = {"quick": 8000, "thorough": 2000000}
     wall = {"quick": 300, "thorough": 1200}
     selftest_n = {"quick": 24, "thorough": 96}
     chunk = 50
@@ -301,6 +301,18 @@ class Engine:
         from annet import cli_args, filtering
         self.api, self.cli_args = api, cli_args
         self.filterer = filtering.filterer_connector.get()
+        from .. import runner
+        self.known_open = set((k["clause"], k["key"]) for k in runner.load_known()
+                              if k.get("status") == "open" and k["property"] == self.prop)
+        self.deferred = []
+
+    def _known(self, v):
+        """a violation listed as an open known finding does not end the run (a different violation later in the
+        history must still surface); it is reported at the end if nothing else was found"""
+        if (v["clause"], v["key"]) in self.known_open:
+            self.deferred.append(v)
+            return True
+        return False
 
     @contextlib.contextmanager
     def _captured(self):
@@ -371,6 +383,7 @@ class Engine:
         simloop._installed.clock.now = 0.0
         violation = None
         steps_log = []
+        self.deferred = []
         try:
             try:
                 if self.prop == "C01":
@@ -383,6 +396,8 @@ class Engine:
                 violation = V("annet-raised", "%s:%s" % (type(e.exc).__name__, e.where), exception=repr(e.exc)[:400],
                               desired={str(k): v for k, v in world.desired.items()},
                               devices={str(k): v.running for k, v in world.dev.items()})
+            if violation is None and self.deferred:
+                violation = self.deferred[0]
         finally:
             self.provider.unregister(world.hw)
             for f in (compile_patching_text, compile_ordering_text, compile_deploying_text):
@@ -445,6 +460,7 @@ class Engine:
                      "fetch_faults": {k: v.get("fail") or "stall" for k, v in world.fetch_plan.items()},
                      "cuts": {k: v.get("cut") for k, v in world.deploy_plan.items()}, "check_diff": check_diff}
             steps_log.append(entry)
+            skip_second = False
             for d in world.inv:
                 dev = world.dev[d.id]
                 fplan = world.fetch_plan.get(d.id, {})
@@ -474,13 +490,17 @@ class Engine:
                              info=a[4], old=pre[d.id], new=world.desired[d.id], commands=world.received.get(d.id))
                 want = W.expected_after(pre[d.id], world.desired[d.id], rb) if world.full else None
                 if want is not None and W.norm(dev.running, rb) != W.norm(want, rb):
-                    return V("not-converged", self._diverge_key(world, pre[d.id], world.desired[d.id], dev.running, want),
-                             step=step, device=d.hostname, old=pre[d.id], new=world.desired[d.id], got=dev.running, want=want,
-                             commands=world.received.get(d.id))
+                    v = V("not-converged", self._diverge_key(world, pre[d.id], world.desired[d.id], dev.running, want),
+                          step=step, device=d.hostname, old=pre[d.id], new=world.desired[d.id], got=dev.running, want=want,
+                          commands=world.received.get(d.id))
+                    if not self._known(v):
+                        return v
+                    skip_second = True
+                    continue
                 if check_diff and W.convergent(rb) and world.full and d.fqdn in deployer.failed_configs:
                     return V("post-deploy-diff-not-empty", "check-diff", step=step, device=d.hostname,
                              reported=repr(deployer.failed_configs[d.fqdn]), output=out[-600:])
-            if any(world.fetch_plan.get(d.id, {}).get("fail") for d in world.inv) or world.cut_happened:
+            if any(world.fetch_plan.get(d.id, {}).get("fail") for d in world.inv) or world.cut_happened or skip_second:
                 continue
             # a second deploy right after an un-cut one must send nothing
             self._draw_faults(ch, world, False)
@@ -501,7 +521,27 @@ class Engine:
         return None
 
     def _diverge_key(self, world, old, new, got, want):
-        return "diverged"
+        """narrow signature for the known finding: the ONLY difference is the relative order of the rows of an
+        %ordered rule, in a block where a row of that rule changed its value under an unchanged key"""
+        rb = world.rb
+
+        def unordered(tree):
+            return tuple(sorted((row, unordered(sub)) for row, sub in tree.items()))
+        if unordered(got) != unordered(want):
+            return "diverged"
+
+        def value_change(o, n, rules):
+            for row, sub in n.items():
+                m = W.match_direct(rules, rb.globals, row, rb.rev)
+                if m is None:
+                    continue
+                r, key = m
+                if r.ordered and row not in o and W.find_line(o, rules, rb.globals, r, key, rb.rev) is not None:
+                    return True
+                if r.block and not r.rewrite and row in o and value_change(o[row], sub, r.children):
+                    return True
+            return False
+        return "ordered-rule-value-change" if value_change(old, new, rb.rules) else "diverged"
 
     # ------------------------------------------------------------------ C02
     def _holders(self, world, path):
